@@ -233,7 +233,7 @@ var c20HandVectors = []c20Hand{
 	{"a:1", map[string]string{"b": "1"}, false},
 	{"not a:1", map[string]string{"a": "2"}, true},
 	{"not a:1", map[string]string{"a": "1"}, false},
-	{"not a:1", map[string]string{}, false},        // label must be present for a negated leaf
+	{"not a:1", map[string]string{}, false},         // label must be present for a negated leaf
 	{"not a:1", map[string]string{"b": "1"}, false}, // idem
 	{"not not a:1", map[string]string{"a": "1"}, true},
 	{"not not a:1", map[string]string{}, false},
@@ -437,7 +437,7 @@ func c20CheckFormula(r *verifmc.Run, space string, f *abe.Node, asgs []c20Asg, s
 	}
 	if sample {
 		r.Sample(map[string]interface{}{"policy": s0, "nnf": abe.Print(nn, abe.StyleFull), "printed_by_circl": str,
-			"spellings": []string{abe.Print(f, abe.StyleRedund), abe.Print(f, abe.StyleMinimal), abe.Print(f, abe.StyleSpace)},
+			"spellings":   []string{abe.Print(f, abe.StyleRedund), abe.Print(f, abe.StyleMinimal), abe.Print(f, abe.StyleSpace)},
 			"assignments": len(asgs), "satisfied_by": nTrue})
 	}
 }
